@@ -22,7 +22,7 @@ def main():
     if errors:
         run.violation("table translator failed closed: " + "; ".join(errors), dict(kind="translator", errors=errors), False)
         return run.finish()
-    ok, log = run.build(["Proofs/C13/Styles.vo", "Model/IsdShapeCases.vo"], clean=(run.tier == "thorough"))
+    ok, log = run.build(["Proofs/C13/OriginPosition.vo", "Model/IsdShapeCases.vo"], clean=(run.tier == "thorough"))
     proofs_ok = ok and run.theorems()
     if not ok: run.proof_log = log[-2500:]
     run.witnesses()
